@@ -5,7 +5,7 @@ import vlib
 from vlib import log
 
 
-def front(v, prop, need_driver=True, need_harness=True, need_cli=False, profiles=("release", "checked")):
+def front(v, prop, need_driver=True, need_harness=True, need_cli=False, profiles=("release", "checked"), need_shim=False):
     """Returns dict(proof=<check_props result>, driver_ok, harness_ok, cli_ok). Never raises on a broken proof:
     the caller still runs the search for a failing input."""
     st = dict(proof=None, driver_ok=False, harness_ok=False, cli_ok=False, broken=[])
@@ -37,6 +37,12 @@ def front(v, prop, need_driver=True, need_harness=True, need_cli=False, profiles
         if not ok:
             st["broken"].append(msg)
             log(msg)
+    if need_shim:
+        ok, msg = vlib.build_shim()
+        st["shim_ok"] = ok
+        if not ok:
+            st["broken"].append(msg)
+            log(msg)
     if need_cli:
         ok, msg = vlib.build_cli()
         st["cli_ok"] = ok
@@ -61,7 +67,7 @@ import json
 
 
 def correspondence(v, st, prop, cmd, model_kind, tier, seed, replay=None, profiles=("release", "checked"),
-                   extra=(), model_desc="", impl_desc="", kind_for=None, timeout=3000):
+                   extra=(), model_desc="", impl_desc="", kind_for=None, timeout=3000, only=None, case_file="cases.txt"):
     """Generic differential run: harness (per profile) writes cases.txt / impl.txt / specfail.txt / stats.json,
     the extracted model replays cases.txt. Returns dict(stats, samples, evals, distinct, dis, spec_fail[(tag,line,outdir)])."""
     res = dict(stats={}, samples=[], evals=0, distinct=0, dis=0, spec_fail=[])
@@ -91,10 +97,10 @@ def correspondence(v, st, prop, cmd, model_kind, tier, seed, replay=None, profil
             res["samples"] += s["samples"][:3]
             if tag == profiles[0]:
                 res["distinct"] += s["stats"].get("distinct_nontrivial", 0)
-        res["evals"] += sum(val for k, val in s["stats"].items() if k in ("pairs", "hostile_pairs", "cases", "histories"))
+        res["evals"] += sum(val for k, val in s["stats"].items() if k in ("pairs", "hostile_pairs", "cases", "histories", "scenarios"))
         sf = os.path.join(outdir, "specfail.txt")
         if os.path.exists(sf):
-            res["spec_fail"] += [(tag, l, outdir) for l in open(sf).read().split("\n") if l]
+            res["spec_fail"] += [(tag, l, outdir) for l in open(sf).read().split("\n") if l and (only is None or only in l)]
         if st["driver_ok"] and os.path.exists(os.path.join(outdir, "cases.txt")):
             mk = kind_for(tag) if kind_for else model_kind
             ok, msg = vlib.run_model_sharded(mk, os.path.join(outdir, "cases.txt"), os.path.join(outdir, "model.txt"))
@@ -112,20 +118,22 @@ def correspondence(v, st, prop, cmd, model_kind, tier, seed, replay=None, profil
     return res
 
 
-def case_line(outdir, cid):
-    with open(os.path.join(outdir, "cases.txt")) as f:
+def case_line(outdir, cid, fname="cases.txt"):
+    if not os.path.exists(os.path.join(outdir, fname)):
+        fname = "cases.txt"
+    with open(os.path.join(outdir, fname)) as f:
         for c in f:
             if c.split(" ", 1)[0] == cid:
                 return c.rstrip("\n")
     return ""
 
 
-def verdict(v, st, prop, res, known_match=None, max_report=3):
+def verdict(v, st, prop, res, known_match=None, max_report=3, replay_file="cases.txt"):
     """spec failures -> VIOLATION with replay (or KNOWN-FINDING); else broken proof/correspondence -> no-failing-input-found."""
     reported = 0
     for tag, line, outdir in res["spec_fail"]:
         cid = line.split()[0]
-        case = case_line(outdir, cid)
+        case = case_line(outdir, cid, replay_file)
         k = known_match(line, case) if known_match else None
         if k:
             v.known(k)
